@@ -28,6 +28,15 @@ class ToolError(Exception):
     """The machinery failed (build, TLC error, timeout, vacuity): exit 2, never a VIOLATION."""
 
 
+class HarnessCrash(Exception):
+    """The harness process (running the code under test) died by a signal."""
+    def __init__(self, signal, args, progress):
+        Exception.__init__(self, "harness died by signal %d" % signal)
+        self.signal = signal
+        self.cmd = args
+        self.progress = progress
+
+
 def log(msg):
     print(msg, flush=True)
 
@@ -176,18 +185,18 @@ def validate_trace(workdir, name, extends, trace_path, invariants=(), timeout=90
     res = run_tlc(workdir, name, extends, cfg, defs=defs, workers=1, timeout=timeout, deque=True, heap=heap,
                   env_extra={"TRACE": trace_path})
     info = {"states": res.distinct, "transitions": res.generated, "wall_s": round(res.wall, 2)}
-    m = re.search(r'"UNMATCHED",\s*(\d+)', res.out)
-    if m:
-        info["unmatched_line"] = int(m.group(1))
-        return False, info, res
-    if res.violation:
+    if res.violation and "Invariant" in res.out:
         info["invariant_violated"] = True
         m = re.search(r"Error: Invariant (\w+) is violated", res.out)
         if m:
             info["invariant"] = m.group(1)
         m = re.findall(r"/\\ l = (\d+)", res.out)
         if m:
-            info["unmatched_line"] = int(m[-1])
+            info["unmatched_line"] = max(1, int(m[-1]) - 1)
+        return False, info, res
+    m = re.search(r'"UNMATCHED",\s*(\d+)', res.out)
+    if m:
+        info["unmatched_line"] = int(m.group(1))
         return False, info, res
     if res.error:
         raise ToolError("trace validation %s: TLC error:\n%s" % (name, res.error))
@@ -205,6 +214,14 @@ def harness(binary, args, timeout=900, env_extra=None, cwd=None):
         p = subprocess.run([binary] + args, stdout=subprocess.PIPE, stderr=subprocess.PIPE, text=True, timeout=timeout, env=env, cwd=cwd)
     except subprocess.TimeoutExpired:
         raise ToolError("harness timed out: %s" % " ".join(args))
+    if p.returncode < 0:
+        progress = None
+        if "--progress" in args:
+            try:
+                progress = open(args[args.index("--progress") + 1]).read().strip()
+            except Exception:
+                pass
+        raise HarnessCrash(-p.returncode, args, progress)
     if p.returncode != 0:
         raise ToolError("harness failed (%d): %s\n%s" % (p.returncode, " ".join(args), (p.stderr or p.stdout)[-3000:]))
     last = p.stdout.strip().splitlines()[-1] if p.stdout.strip() else "{}"
@@ -259,6 +276,19 @@ class Check:
                                    "mismatches": bad, "notes": result.get("notes", [])[:5]})
         for m in result.get("mismatches", []):
             self.violation(stage, m)
+
+    def run_harness(self, binary, args, stage, timeout=2400):
+        """Runs the harness; a death by signal (abort, segfault) of the code under test is a violation."""
+        prog = os.path.join(self.work, "progress.txt")
+        a = list(args)
+        if args and args[0] == "replay" and "--progress" not in a:
+            a += ["--progress", prog]
+        try:
+            return harness(binary, a, timeout=timeout)
+        except HarnessCrash as e:
+            self.violation(stage, {"kind": "crash", "signal": e.signal, "cmd": " ".join(e.cmd), "case_index_about": e.progress,
+                                   "what": "the process running the library died by a signal during this stage"})
+            return None
 
     def violation(self, stage, detail):
         """Registers a disagreement; known findings are matched by their `match` sub-dictionary."""
